@@ -50,6 +50,16 @@ TRUSTED = [
 ]
 
 
+
+def crash_text(s):
+    """the informative line of a sanitizer / abort report"""
+    s = str(s)
+    for line in s.splitlines():
+        if "ERROR:" in line or "runtime error" in line or "Assertion" in line or "terminate called" in line:
+            return line.strip()[:400]
+    return s.strip().lstrip("=").strip()[:400]
+
+
 # ----------------------------------------------------------------------------- numbers
 def fr_hex(fr):
     fr = Fraction(fr)
@@ -364,12 +374,12 @@ def evaluate(ctx, exe, mexe, cases, st, record=True):
         if not concerns and r["R"].get("has", [None])[0] == "1":
             # whatever happened afterwards (applying a bogus projection may well abort)
             viol(i, "method %s has no out-of-sample support but returned a NON-EMPTY projection function%s" % (
-                c["method"], " (and applying it aborted: %s)" % str(r["crashed"])[:200] if r["crashed"] else ""))
+                c["method"], " (and applying it aborted: %s)" % crash_text(r["crashed"]) if r["crashed"] else ""))
             continue
         if r["crashed"]:
             if concerns:
                 viol(i, "the implementation aborts / hangs on this input (%s %s): %s" % (
-                    c["kind"], c.get("method", ""), str(r["crashed"])[:500]))
+                    c["kind"], c.get("method", ""), crash_text(r["crashed"])))
             else:
                 verdicts[i] = "skip"
                 st.bump(st.skipped, c["method"] + ":crash")
@@ -611,13 +621,13 @@ def build_cases(ctx, quick):
             hist["corpus"] = hist.get("corpus", 0) + 1
         except Exception as ex:            # a corpus file that does not parse is reported, not fatal
             ctx.note("corpus file %s not usable: %s" % (name, ex))
-    n_int = 40 if quick else 400
+    n_int = 40 if quick else 800
     internal = gen_internal(rng, n_int)
     cases += internal
     for c in internal:
         hist["internal:" + c["kind"]] = hist.get("internal:" + c["kind"], 0) + 1
     n_emb = {"pca": 16, "rp": 10, "npe": 5, "lltsa": 5, "lpp": 5} if quick else \
-            {"pca": 150, "rp": 80, "npe": 40, "lltsa": 40, "lpp": 40}
+            {"pca": 400, "rp": 200, "npe": 80, "lltsa": 80, "lpp": 80}
     for meth, n in n_emb.items():
         for j in range(n):
             cases.append(gen_emb(rng, meth, "small" if (quick or j % 4) else "large"))
